@@ -230,6 +230,7 @@ func runRagDoc(c *hx.Ctx, idx int) {
 			continue
 		}
 		checkDocument(c, ragFormat, d, o, md, k, "rag.ChunkDocument(doc).ToMarkdownWithOptions")
+		ragModelOps(c, d, nil, o, md, k) // the collection, its chunks and its lists against the Lean model (docmodel_streams.go)
 		c.Count(fmt.Sprintf("ragdoc opts offset=%d", o.HeadingLevelOffset))
 		c.Count(fmt.Sprintf("ragdoc opts max=%d", o.MaxHeadingLevel))
 	}
